@@ -165,7 +165,7 @@ theorem regWait_inv {fuel : Nat} {W : List Nat} {s : State} {t : Nat} (top' : Op
     (h : Inv [] W (some t) s)
     (hrun : Tbl.hasOwner s.waitFor t = false →
       ∃ th0, thFind s.threads t = some th0 ∧ th0.vm = .running ∧ th0.hasVM = true)
-    (ho : s.alive o = true) (hon : o < 100 ∨ n = 0)
+    (ho : s.alive o = true) (hon : o < 100 ∨ NameOK n)
     (htop : top' = some t ∨ (n = 0 ∧ Tbl.hasOwner s.waitFor t = false)) :
     Ok (regWait (stop fuel) s o n t)
       (Inv [] W top' (regWait (stop fuel) s o n t) ∧ G0 s (regWait (stop fuel) s o n t) ∧
